@@ -367,6 +367,33 @@ ADDENDA = {
 for _p, _t in ADDENDA.items():
     PROPS[_p]['rule'] = PROPS[_p]['rule'] + ' ' + _t
 
+# ninth seeded round
+_BOOLS = ('Boolean plugin arguments of core plugins are written in every accepted spelling (true/True/1, false/False/0) '
+          'in 30 % of the cases.')
+_PIDS = 'Pid numbers have one to seven digits (allocation starting just below 2^15, 10^5, 10^6 or near pid_max 4194303).'
+_VINO = 'In 25 % of the cases directory identities are kernfs-style 64-bit values (generation << 32 | slot).'
+ADDENDA9 = {
+    'C01': ' '.join([_PIDS, _BOOLS, _VINO]),
+    'C03': ' '.join([_PIDS, _BOOLS, _VINO]),
+    'C04': ' '.join([_PIDS, _BOOLS]),
+    'C07': ' '.join([_PIDS, _BOOLS]),
+    'C08': _BOOLS,
+    'C09': ' '.join([_PIDS, _BOOLS]),
+    'C10': 'Every kill plugin also runs (dry, on every tick) with a target set that the vanish fault empties entirely.',
+    'C11': _VINO,
+    'C12': 'typed also generates float texts at the end of the float range (valid), beyond it (must be rejected) and '
+           'underflowing it (either answer accepted), and doubles beyond the double range (must be rejected).',
+    'C14': 'In 25 % of the cases some file names are padded to 64-255 bytes (inotify events of every length up to NAME_MAX).',
+    'C15': ' '.join([_BOOLS, _VINO]),
+    'C17': ' '.join([_PIDS, _BOOLS, _VINO]),
+    'C18': ' '.join([_BOOLS, _VINO]),
+    'C19': 'In 25 % of the proto cases the k-th accept(2) of the case fails with a generated errno (EMFILE, ENFILE, '
+           'ENOMEM, ENOBUFS, ECONNABORTED, EINTR, EPROTO, EAGAIN) without consuming the queued connection: every '
+           'client must still be served.',
+}
+for _p, _t in ADDENDA9.items():
+    PROPS[_p]['rule'] = PROPS[_p]['rule'] + ' ' + _t
+
 
 def run_property(r):
     """r: PropRunner. Returns the coverage dict for the evidence file."""
